@@ -154,7 +154,7 @@ def ob_varying(W, n, order, si_a, si_b):
             W.goal("varying[%d]" % m, W.eq(out[m], ref))
 
 
-def ob_df(W, inplace):
+def ob_df(W, inplace, index=None):
     """df_timeshift: timeshift is applied with exactly seconds*fs to every selected numeric column and to nothing else"""
     import pandas as pd
     import speckit.dsp as D
@@ -164,7 +164,7 @@ def ob_df(W, inplace):
     def rec(data, shifts, *a, **k):
         calls.append((rnp.asarray(data).copy(), shifts))
         return rnp.asarray(data) + 1000.0 * len(calls)
-    df = pd.DataFrame({"a": [1.0, 2.0, 3.0, 4.0], "b": [5, 6, 7, 8], "txt": ["p", "q", "r", "s"], "c": [0.5, 0.25, 0.125, 0.0]})
+    df = pd.DataFrame({"a": [1.0, 2.0, 3.0, 4.0], "b": [5, 6, 7, 8], "txt": ["p", "q", "r", "s"], "c": [0.5, 0.25, 0.125, 0.0]}, index=index)
     before = df.copy(deep=True)
     if W.sym:
         W.assume(fs > 0)
@@ -190,6 +190,7 @@ def ob_df(W, inplace):
         W.goal("column-data", rnp.array_equal(calls[0][0], before["a"].to_numpy()) and rnp.array_equal(calls[1][0], before["b"].to_numpy()))
         W.goal("shift=seconds*fs", W.And(W.eq(calls[0][1], sec * fs), W.eq(calls[1][1], sec * fs)))
     W.goal("input-frame-untouched", before.equals(df))
+    W.goal("same rows, same index", len(out) == len(before) and list(out.index) == list(before.index))
     tgt = (lambda c: c) if inplace else (lambda c: c + "_shifted")
     W.goal("results-stored", rnp.array_equal(out[tgt("a")].to_numpy(), before["a"].to_numpy() + 1000.0) and rnp.array_equal(out[tgt("b")].to_numpy(), before["b"].to_numpy() + 2000.0))
     W.goal("other-columns-untouched", out["c"].equals(before["c"]) and out["txt"].equals(before["txt"]) and (inplace or (out["a"].equals(before["a"]) and out["b"].equals(before["b"]))))
@@ -216,5 +217,6 @@ def obligations(tier):
     for order, a, b in ((1, 0, 1), (3, -1, 0), (1, 2, -2)) + (((5, 0, 1),) if tier == "thorough" else ()):
         obs.append({"name": "timeshift/varying/order%d/int%d,%d" % (order, a, b), "fn": "ob_varying", "params": {"n": 7 if order <= 3 else 9, "order": order, "si_a": a, "si_b": b}, "fork": True, "max_paths": 100, "weight": 8})
     for inplace in (False, True):
-        obs.append({"name": "df_timeshift/%s" % ("inplace" if inplace else "suffix"), "fn": "ob_df", "params": {"inplace": inplace}, "fork": True, "max_paths": 20})
+        for iname, idx in (("range", None), ("offset", [10, 11, 12, 13]), ("unsorted", [3, 0, 2, 1]), ("float", [0.5, 1.0, 1.5, 2.0])):
+            obs.append({"name": "df_timeshift/%s/index-%s" % ("inplace" if inplace else "suffix", iname), "fn": "ob_df", "params": {"inplace": inplace, "index": idx}, "fork": True, "max_paths": 20})
     return obs
